@@ -976,6 +976,18 @@ def register_build(R):
     names = get_names()
     NCOLS = names.cols()
 
+    def _comments(S, how):
+        """the `comments` argument: None (False), two abstract strings (True), or a list of abstract strings of symbolic length ("any"); frozen"""
+        if not how:
+            return None
+        if how == "any":
+            cm = STR.str_list("comments")
+            S.assume(cm.n >= 0)
+        else:
+            cm = PList([STR.fresh_str("comment0"), STR.fresh_str("comment1")])
+        cm.frozen = True
+        return cm
+
     def column_is(arr, n, given, pad, col):
         """arr has exactly n entries; entry i is given[i] where the given column has one, else the padding value"""
         i = z3.Int(fresh_name("i"))
@@ -986,6 +998,13 @@ def register_build(R):
     def stored(E, v, o):
         d = v["self"]
         cm = d.fields.get("comments")
+        if isinstance(o["comments"], PList) and o["comments"].items is None:  # any number of comments: an own list with the same entries in the same order
+            was = o["comments"]
+            if not (isinstance(cm, PList) and cm.items is None and cm is not v["comments"] and cm.uid != was.uid and cm.kinds == was.kinds
+                    and d.fields.get("source") == o["source"] and d.fields.get("names") == names and d.fields.get("types") == get_types()):
+                return False
+            q = z3.Int(fresh_name("q"))
+            return z3.And(zint(cm.n) == zint(was.n), z3.ForAll([q], z3.Implies(z3.And(q >= 0, q < zint(was.n)), z3.Select(cm.cols[0], q) == z3.Select(was.cols[0], q))))
         want_cm = [] if o["comments"] is None else list(o["comments"].items)
         return (isinstance(cm, PList) and cm.items is not None and len(cm.items) == len(want_cm) and all(a is b for a, b in zip(cm.items, want_cm))
                 and (o["comments"] is None or cm is not v["comments"])  # a list of its own: later edits of the tree's comments do not reach the caller's list
@@ -1005,10 +1024,7 @@ def register_build(R):
                 a = S.arr(_kind(c), n=m, name=c, dtype=(_np64(c) if widths == 64 else _np32(c)))
                 a.frozen = True
                 cols[c] = a
-            c0, c1 = S.opaque({}, "comment0"), S.opaque({}, "comment1")
-            cm = PList([c0, c1]) if comments else None
-            if cm is not None:
-                cm.frozen = True
+            cm = _comments(S, comments)
             return dict(self=S.obj(Tree), n_nodes=n, source="a.swc", comments=cm, names=None, kwargs=PDict(dict(cols)), g_cols=dict(cols), g_extra=list(extra))
 
         return f
@@ -1046,6 +1062,7 @@ def register_build(R):
             "all-columns,64-bit,type-r-pid-of-any-length,no-comments": init_setup(64, free=("type", "r", "pid"), comments=False),
             "no-id-no-pid:default-numbering-and-chain-parents": init_setup(32, extra=(), drop=("id", "pid")),
             "only-id-and-pid:attributes-zero": init_setup(64, extra=(), drop=("type", "x", "y", "z", "r")),
+            "all-columns,64-bit,length-n,any-number-of-comments(as-read-from-a-file)": init_setup(64, extra=(), comments="any"),
         },
         requires=["size-non-negative :: n_nodes >= 0"],
         ensures=[
@@ -1067,10 +1084,7 @@ def register_build(R):
                 a = S.arr(_kind(c), n=n, name=c, dtype=_np32(c))
                 a.frozen = True
                 cols[c] = a
-            c0, c1 = S.opaque({}, "comment0"), S.opaque({}, "comment1")
-            cm = PList([c0, c1]) if comments else None
-            if cm is not None:
-                cm.frozen = True
+            cm = _comments(S, comments)
             return dict(self=S.obj(DictSWC), source="a.swc", comments=cm, names=(names if names_given else None), kwargs=PDict(dict(cols)), g_cols=dict(cols))
 
         return f
@@ -1083,7 +1097,8 @@ def register_build(R):
     R.add(
         f"{SWC}:DictSWC.__init__",
         prop="C01",
-        variants={f"comments-{'given' if c else 'omitted'},names-{'given' if nm else 'omitted'}": dict_setup(c, nm) for c in (True, False) for nm in (True, False)},
+        variants={**{f"comments-{'given' if c else 'omitted'},names-{'given' if nm else 'omitted'}": dict_setup(c, nm) for c in (True, False) for nm in (True, False)},
+                  "any-number-of-comments,names-omitted": dict_setup("any", False)},
         ensures=[
             ("one-column-per-keyword-in-the-given-order-holding-the-very-array-given", dict_cols),
             ("source-names-types-stored-comments-copied-into-an-own-list", stored),
@@ -1101,10 +1116,7 @@ def register_build(R):
                 a.dtype = _np64(c)  # what pandas makes of the parsed Python ints / floats
                 a.frozen = True
             df.frozen = True
-            c0, c1 = S.opaque({}, "comment0"), S.opaque({}, "comment1")
-            cm = PList([c0, c1]) if comments else None
-            if cm is not None:
-                cm.frozen = True
+            cm = _comments(S, comments)
             return dict(df=df, source="a.swc", comments=cm, names=None, g_extra=list(extra))
 
         return f
@@ -1156,6 +1168,7 @@ def register_build(R):
             "seven-columns,comments": frame_setup(()),
             "seven-columns,no-comments": frame_setup((), comments=False),
             "seven-columns+one-requested-extra-column": frame_setup(("e",)),
+            "seven-columns,any-number-of-comments(as-read-from-a-file)": frame_setup((), comments="any"),
         },
         ensures=[
             ("a-Tree-is-returned", frame_is_tree),
